@@ -187,7 +187,7 @@ def _maps(R, p, only):
     w0, st0 = call(clr, o)
     kk = 0
     for cs in (2, max(1, nnz // 3)):
-        for name in ("builtin", "eager-list", "virtual-map", "virtual-imap", "virtual-imap_unordered"):
+        for name in ("builtin", "eager-list", "virtual-map", "virtual-imap", "virtual-imap_unordered", "thread-pool-map"):
             kk += 1
             inner = {"p": p, "chunksize": cs, "map": name}
             if only is not None and only != inner:
@@ -199,13 +199,22 @@ def _maps(R, p, only):
             sched.VirtualPool.choices = None
             sched.VirtualPool.mon = None
             pool = sched.VirtualPool(2)
+            tpe = None
+            if name == "thread-pool-map":
+                # real threads sharing the interpreter (an ordered parallel map; conformance run, not explored)
+                import concurrent.futures
+                tpe = concurrent.futures.ThreadPoolExecutor(3)
             mp = {"builtin": map, "eager-list": lambda f, xs: list(map(f, list(xs))), "virtual-map": pool.map,
-                  "virtual-imap": pool.imap, "virtual-imap_unordered": pool.imap_unordered}[name]
+                  "virtual-imap": pool.imap, "virtual-imap_unordered": pool.imap_unordered,
+                  "thread-pool-map": (tpe.map if tpe else None)}[name]
             try:
                 w, st = call(clr, o, chunksize=cs, map=mp)
             except Exception as e:
                 R.mismatch("raises:" + type(e).__name__, inner, f"{e!s:.200}")
                 continue
+            finally:
+                if tpe is not None:
+                    tpe.shutdown(wait=True)
             same(R, "depends-on-map-implementation", inner, w, st, w0, st0)
 
 
